@@ -8,5 +8,6 @@ CONSTANTS
   MaxLen = 2
   MaxWrites = 3
   ContinueAfterError = FALSE
+  Rich = TRUE
 INVARIANTS R1_Unconditional R1s_StreamExact R2_FileNoReplacement R3_OneMessagePerAcceptedBatch I_Order I_Sync I_Refusals
 CHECK_DEADLOCK FALSE
